@@ -610,7 +610,7 @@ func main() {
 			return
 		}
 		one := func(b []byte) {
-			if m := runBIP66(b); m != "" {
+			if m := mc.Safe(func() string { return runBIP66(b) }); m != "" {
 				R.Mismatch("IsValidSignatureEncodingBIP0066/1 deviation", "bip66", m, mc.D{"bytes": mc.Hex(b)})
 			}
 			if ref.BIP66Valid(b) {
